@@ -11,7 +11,7 @@ use crate::database::node::{Node, NodeDeletionEntry, NodeToInsert};
 use crate::database::room::{Authorisation, EntityRight, RightType, Room, User};
 use crate::security::{derive_uid, Ed25519SigningKey, SigningKey, Uid};
 use serde_json::{json, Value};
-use std::collections::HashMap;
+use std::collections::{HashMap, HashSet};
 
 pub struct Keys {
     pub map: HashMap<String, Ed25519SigningKey>,
@@ -221,6 +221,7 @@ fn replay_deletion(sc: &Value) -> Value {
         nodes: vec![],
         node_log: vec![],
         updated_nodes: vec![],
+        updated_nodes_previous_mdate: vec![],
         edges: vec![],
         edge_log: vec![],
     };
@@ -366,6 +367,7 @@ fn replay_c12_deletion(sc: &Value) -> Value {
         nodes: vec![],
         node_log: vec![],
         updated_nodes: vec![],
+        updated_nodes_previous_mdate: vec![],
         edges: vec![],
         edge_log: vec![],
     };
@@ -448,12 +450,184 @@ fn replay_c12_deletion(sc: &Value) -> Value {
     json!({"status": "done", "local": if local_ok {"Ok"} else {"Err"}, "remote": remote_ok})
 }
 
+// ---- C09: generic builders from the field-name JSON the checks write
+fn g_uid(v: &Value) -> Uid {
+    uid(v.as_str().unwrap_or(""))
+}
+fn g_opt_uid(v: &Value) -> Option<Uid> {
+    if v.is_null() { None } else { Some(g_uid(v)) }
+}
+fn g_str(v: &Value) -> String {
+    v.as_str().unwrap_or("").to_string()
+}
+fn g_node(v: &Value, keys: &mut Keys) -> Node {
+    Node {
+        id: g_uid(&v["id"]),
+        room_id: g_opt_uid(&v["room_id"]),
+        cdate: v["cdate"].as_i64().unwrap_or(0),
+        mdate: v["mdate"].as_i64().unwrap_or(0),
+        _entity: g_str(&v["_entity"]),
+        _json: Some("{}".to_string()),
+        _binary: None,
+        verifying_key: keys.vk("K1"),
+        _signature: vec![],
+        _local_id: None,
+    }
+}
+fn g_edge_log(v: &Value, keys: &mut Keys) -> EdgeDeletionEntry {
+    EdgeDeletionEntry {
+        room_id: g_uid(&v["room_id"]),
+        src: g_uid(&v["src"]),
+        src_entity: g_str(&v["src_entity"]),
+        dest: g_uid(&v["dest"]),
+        label: "l".to_string(),
+        cdate: v["cdate"].as_i64().unwrap_or(0),
+        deletion_date: i(&v["deletion_date"]),
+        verifying_key: keys.vk("K1"),
+        signature: vec![],
+        entity_name: None,
+    }
+}
+fn g_node_log(v: &Value, keys: &mut Keys) -> NodeDeletionEntry {
+    NodeDeletionEntry {
+        room_id: g_uid(&v["room_id"]),
+        id: g_uid(&v["id"]),
+        entity: g_str(&v["entity"]),
+        mdate: i(&v["mdate"]),
+        deletion_date: i(&v["deletion_date"]),
+        verifying_key: keys.vk("K1"),
+        signature: vec![],
+        entity_name: None,
+    }
+}
+fn g_insert(v: &Value, keys: &mut Keys) -> InsertEntity {
+    let n = &v["node_to_mutate"];
+    let mut sub_nodes = HashMap::new();
+    if let Some(arr) = v["sub_nodes"].as_array() {
+        for kv in arr {
+            let list: Vec<InsertEntity> = kv[1].as_array().unwrap().iter().map(|c| g_insert(c, keys)).collect();
+            sub_nodes.insert(g_str(&kv[0]), list);
+        }
+    }
+    InsertEntity {
+        name: "x".to_string(),
+        node_to_mutate: NodeToMutate {
+            id: g_uid(&n["id"]),
+            date: i(&n["date"]),
+            entity: g_str(&n["entity"]),
+            room_id: g_opt_uid(&n["room_id"]),
+            node: if n["node"].is_null() { None } else { Some(g_node(&n["node"], keys)) },
+            node_fts_str: None,
+            old_node: if n["old_node"].is_null() { None } else { Some(g_node(&n["old_node"], keys)) },
+            old_fts_str: None,
+            enable_full_text: true,
+        },
+        edge_deletions: vec![],
+        edge_deletions_log: v["edge_deletions_log"].as_array().unwrap().iter().map(|e| g_edge_log(e, keys)).collect(),
+        edge_insertions: vec![],
+        sub_nodes,
+    }
+}
+
+fn replay_daily_marks(sc: &Value) -> Value {
+    use crate::database::daily_log::DailyMutations;
+    use crate::database::query_language::mutation_parser::MutationParser;
+    let mut keys = Keys::new();
+    let mut dm = DailyMutations::default();
+    let vals = &sc["values"];
+    match sc["part"].as_str().unwrap() {
+        "insert" => g_insert(&vals["ie"], &mut keys).update_daily_logs(&mut dm),
+        "batch" | "room_mutation" => {
+            let ies: Vec<InsertEntity> = vals["ies"].as_array().unwrap().iter().map(|x| g_insert(x, &mut keys)).collect();
+            let date = ies[0].node_to_mutate.date;
+            let room0 = ies[0].node_to_mutate.id;
+            let mq = MutationQuery {
+                mutate_entities: ies,
+                mutation_parser: std::sync::Arc::new(MutationParser::new()),
+                date,
+            };
+            if sc["part"].as_str().unwrap() == "batch" {
+                mq.update_daily_logs(&mut dm);
+            } else {
+                let (reply, _rx) = tokio::sync::oneshot::channel();
+                let mut room_list = HashSet::new();
+                room_list.insert(room0);
+                let q = RoomMutationWriteQuery { room_list, mutation_query: mq, reply };
+                q.update_daily_logs(&mut dm);
+            }
+        }
+        "sync_node" => {
+            let n = &vals["nti"];
+            let nti = NodeToInsert {
+                id: g_uid(&n["id"]),
+                node: if n["node"].is_null() { None } else { Some(g_node(&n["node"], &mut keys)) },
+                entity_name: None,
+                index: true,
+                old_room_id: g_opt_uid(&n["old_room_id"]),
+                old_mdate: n["old_mdate"].as_i64().unwrap_or(0),
+                old_verifying_key: None,
+                old_local_id: None,
+                old_fts_str: None,
+                node_fts_str: None,
+            };
+            nti.update_daily_logs(&mut dm);
+        }
+        "deletion" => {
+            let d = &vals["dq"];
+            let dq = DeletionQuery {
+                nodes: vec![],
+                node_log: d["node_log"].as_array().unwrap().iter().map(|e| g_node_log(e, &mut keys)).collect(),
+                updated_nodes: d["updated_nodes"].as_array().unwrap().iter().map(|e| g_node(e, &mut keys)).collect(),
+                updated_nodes_previous_mdate: d["updated_nodes_previous_mdate"].as_array().map(|a| a.iter().map(|x| x.as_i64().unwrap_or(0)).collect()).unwrap_or_default(),
+                edges: vec![],
+                edge_log: d["edge_log"].as_array().unwrap().iter().map(|e| g_edge_log(e, &mut keys)).collect(),
+            };
+            dq.update_daily_logs(&mut dm);
+        }
+        "sync_tombstones" => {
+            let conn = rusqlite::Connection::open_in_memory().unwrap();
+            Node::create_tables(&conn).unwrap();
+            Edge::create_tables(&conn).unwrap();
+            let arr = vals["entries"].as_array().unwrap();
+            if sc["shape"]["kind"].as_str().unwrap() == "node" {
+                let mut v: Vec<NodeDeletionEntry> = arr.iter().map(|e| g_node_log(e, &mut keys)).collect();
+                NodeDeletionEntry::delete_all(&mut v, &mut dm, &conn).unwrap();
+            } else {
+                let mut v: Vec<EdgeDeletionEntry> = arr.iter().map(|e| g_edge_log(e, &mut keys)).collect();
+                EdgeDeletionEntry::delete_all(&mut v, &mut dm, &conn).unwrap();
+            }
+        }
+        other => return json!({"status": "unknown-part", "part": other}),
+    }
+    let marks = crate::database::daily_log::verif_hook::dump(&dm);
+    let mut missing = vec![];
+    for r in sc["required"].as_array().unwrap() {
+        let room = uid(r["room"].as_str().unwrap());
+        let ent = r["entity"].as_str().unwrap();
+        let day = crate::date_utils::date(i(&r["date"]));
+        if !marks.iter().any(|(mr, me, md)| *mr == room && me == ent && *md == day) {
+            missing.push(r["label"].clone());
+        }
+    }
+    let culprit_missing = match sc.get("culprit") {
+        Some(cu) if !cu.is_null() => {
+            let room = uid(cu["room"].as_str().unwrap());
+            let ent = cu["entity"].as_str().unwrap();
+            let day = crate::date_utils::date(i(&cu["date"]));
+            !marks.iter().any(|(mr, me, md)| *mr == room && me == ent && *md == day)
+        }
+        _ => false,
+    };
+    json!({"status": "done", "missing": missing, "missing_culprit": culprit_missing, "marks": marks.len()})
+}
+
 pub fn dispatch(sc: &Value) -> Value {
     match sc["kind"].as_str().unwrap_or("") {
         "entity_mutation" => replay_entity_mutation(sc),
         "deletion" => replay_deletion(sc),
         "validate_node" => replay_validate_node(sc),
         "c12_mutation" => replay_c12_mutation(sc),
+        "daily_marks" => replay_daily_marks(sc),
         "c12_deletion" => replay_c12_deletion(sc),
         "validate_deletions_remote" => replay_validate_deletions_remote(sc),
         other => json!({"status": "unknown-kind", "kind": other}),
@@ -685,5 +859,33 @@ mod api {
             .await
             .unwrap();
         println!("VERIF-API before={} after={}", before.replace('\n', ""), after.replace('\n', ""));
+    }
+}
+
+#[test]
+fn verif_chrono_range() {
+    if std::env::var("VERIF_CHRONO").is_err() {
+        return;
+    }
+    use chrono::DateTime;
+    let ok = |ms: i64| DateTime::from_timestamp_millis(ms).is_some();
+    // largest valid
+    let (mut lo, mut hi) = (0i64, i64::MAX);
+    while lo < hi {
+        let mid = ((lo as i128 + hi as i128 + 1) / 2) as i64;
+        if ok(mid) { lo = mid } else { hi = mid - 1 }
+    }
+    let max_ok = lo;
+    let (mut lo, mut hi) = (i64::MIN, 0i64);
+    while lo < hi {
+        let mid = (lo as i128 + hi as i128).div_euclid(2) as i64;
+        if ok(mid) { hi = mid } else { lo = mid + 1 }
+    }
+    let min_ok = lo;
+    println!("VERIF-CHRONO from_timestamp_millis valid range [{}, {}]", min_ok, max_ok);
+    for ms in [min_ok, max_ok, max_ok - 86_400_000, max_ok - 86_400_000 + 1, 0, -1, 86_399_999, -86_400_001] {
+        let d = std::panic::catch_unwind(|| crate::date_utils::date(ms));
+        let n = std::panic::catch_unwind(|| crate::date_utils::date_next_day(ms));
+        println!("VERIF-CHRONO ms={} date={:?} next={:?}", ms, d.ok(), n.ok());
     }
 }
